@@ -312,6 +312,7 @@ package tds
 //@   ensures [consumed] err == nil ==> r.$tpos == old(r.$tpos) + 8
 //@   ensures [decoded] err == nil ==> header.MsgType == r.$tin[old(r.$tpos)] && header.Status == r.$tin[old(r.$tpos) + 1] && header.Length == r.$tin[old(r.$tpos) + 2] * 256 + r.$tin[old(r.$tpos) + 3] && header.Channel == r.$tin[old(r.$tpos) + 4] * 256 + r.$tin[old(r.$tpos) + 5] && header.PacketNr == r.$tin[old(r.$tpos) + 6] && header.Window == r.$tin[old(r.$tpos) + 7]
 //@   ensures [error-only-if-transport-failed] err != nil ==> r.$tfail
+//@   ensures [never-eof] err != nil ==> !errIs(err, io.EOF)
 //@ func (*PacketHeader).Write returns (n, err)
 //@   modifies header.*
 //@   ensures [n8] err == nil ==> n == 8 && len(bs) == 8
@@ -325,6 +326,7 @@ package tds
 //@   ensures [header] err == nil ==> packet.Header.MsgType == reader.$tin[old(reader.$tpos)] && packet.Header.Status == reader.$tin[old(reader.$tpos) + 1] && packet.Header.Length == reader.$tin[old(reader.$tpos) + 2] * 256 + reader.$tin[old(reader.$tpos) + 3] && packet.Header.Channel == reader.$tin[old(reader.$tpos) + 4] * 256 + reader.$tin[old(reader.$tpos) + 5]
 //@   ensures [body-slice] err == nil ==> packet.Data != nil && len(packet.Data) == packet.Header.Length - 8 && fresh(packet.Data)
 //@   ensures [body] err == nil ==> (forall j int :: 0 <= j && j < len(packet.Data) ==> packet.Data[j] == reader.$tin[old(reader.$tpos) + 8 + j])
+//@   ensures [eof-only-with-complete-packet] err != nil && errIs(err, io.EOF) ==> total == packet.Header.Length && len(packet.Data) == packet.Header.Length - 8 && (forall j int :: 0 <= j && j < len(packet.Data) ==> packet.Data[j] == reader.$tin[old(reader.$tpos) + 8 + j])
 //@   ensures [error-only-if-transport-failed-or-cancelled] err != nil ==> reader.$tfail || ctx.$done
 //@   loop 0:
 //@     invariant [n8] n == 8 && 8 <= totalBytes && totalBytes - 8 <= len(packet.Data)
